@@ -6,6 +6,7 @@ From LJT Require Import model.SuspendCore model.SuspendMarker model.SuspendHuff 
   model.SuspendBuf proofs.SuspendBufProofs model.SuspendLatch proofs.SuspendLatchProofs
   model.SuspendRefine proofs.SuspendRefineProofs model.SuspendProg proofs.SuspendProgProofs
   model.SuspendLossless proofs.SuspendLosslessProofs model.CoefCtl proofs.SuspendCoefCtlProofs gen.GenSuspend.
+From LJT Require proofs.SuspendBitRegProofs.
 Import ListNotations.
 
 (* (1) generic: for a resumable unit parser every partition of the byte string gives the
@@ -145,6 +146,38 @@ Proof. exact drive_raster. Qed.
 Print Assumptions C09_coef_controller_resume.
 Example C09_coef_ctl_needs_the_reset : drive 2 3 false 5 0 0 [true; false] <> Some (raster 2 3).
 Proof. exact coef_ctl_needs_the_reset. Qed.
+
+(* first stage of fast = slow: the logical bit stream L(get_buffer, bits_left, unread bytes) = register bits followed by the
+   bits of the un-stuffed unread bytes (SuspendBitRegProofs.Lstream), over C02's numeric bit register (LosslessBitReg, read-only):
+   append / peek / drop in the arithmetic form of the C09 models, and on buffers without markers both the slow fill
+   (jpeg_fill_bit_buffer) and FILL_BIT_BUFFER_FAST preserve L, hence agree on it (they differ in how much is in the register) *)
+Theorem C09_bit_register_abstraction :
+  (forall g l c, LosslessBitRegProofs.reg_inv (g, l) -> (l + 8 <= 64)%Z -> (0 <= c < 256)%Z ->
+     LosslessBitReg.reg_bits ((g * 256 + c) mod W64, l + 8)%Z = LosslessBitReg.reg_bits (g, l) ++ Lossless.bits_of 8 c /\
+     LosslessBitRegProofs.reg_inv ((g * 256 + c) mod W64, l + 8)%Z) /\
+  (forall g l n, LosslessBitRegProofs.reg_inv (g, l) -> (0 <= n <= l)%Z -> (n <= 31)%Z ->
+     Lossless.get_bits (Z.to_nat n) 0 (LosslessBitReg.reg_bits (g, l)) =
+     Some (Z.land (Z.shiftr g (l - n)) (2 ^ n - 1), LosslessBitReg.reg_bits (g, l - n))%Z) /\
+  (forall g l n, (0 <= n <= l)%Z ->
+     LosslessBitReg.reg_bits (g, l - n)%Z = skipn (Z.to_nat n) (LosslessBitReg.reg_bits (g, l)) /\
+     (LosslessBitRegProofs.reg_inv (g, l) -> LosslessBitRegProofs.reg_inv (g, l - n)%Z)) /\
+  (forall r g l g' l' r', LosslessBitRegProofs.reg_inv (g, l) -> (l < MIN_GET_BITS)%Z -> SuspendBitRegProofs.plain r = true ->
+     fill_go r g l false = FFull g' l' r' ->
+     SuspendBitRegProofs.Lstream g' l' r' = SuspendBitRegProofs.Lstream g l r /\
+     LosslessBitRegProofs.reg_inv (g', l') /\ SuspendBitRegProofs.plain r' = true) /\
+  (forall b b', LosslessBitRegProofs.reg_inv (f_gb b, f_bl b) -> (0 <= f_bl b)%Z -> SuspendBitRegProofs.plain (f_rest b) = true ->
+     ffill b = Some (tt, b') ->
+     SuspendBitRegProofs.Lfast b' = SuspendBitRegProofs.Lfast b /\ LosslessBitRegProofs.reg_inv (f_gb b', f_bl b') /\
+     SuspendBitRegProofs.plain (f_rest b') = true /\ f_mark b' = f_mark b) /\
+  (forall g l r g1 l1 r1 b2, LosslessBitRegProofs.reg_inv (g, l) -> (0 <= l < MIN_GET_BITS)%Z -> SuspendBitRegProofs.plain r = true ->
+     fill_go r g l false = FFull g1 l1 r1 ->
+     ffill {| f_gb := g; f_bl := l; f_rest := r; f_mark := 0 |} = Some (tt, b2) ->
+     SuspendBitRegProofs.Lstream g1 l1 r1 = SuspendBitRegProofs.Lfast b2 /\ f_mark b2 = 0%Z).
+Proof.
+  exact (conj SuspendBitRegProofs.reg_append (conj SuspendBitRegProofs.reg_peek_value (conj SuspendBitRegProofs.reg_drop_bits
+        (conj SuspendBitRegProofs.slow_fill_preserves_L (conj SuspendBitRegProofs.fast_fill_preserves_L SuspendBitRegProofs.fills_agree_on_L))))).
+Qed.
+Print Assumptions C09_bit_register_abstraction.
 
 (* the fast path of decode_mcu, partial: decode_mcu_fast never suspends or fails; when it is not eligible or
    abandons the MCU (marker seen) nothing is committed and decode_mcu is exactly the slow unit covered by
